@@ -79,6 +79,8 @@ Definition dec_hop (h d e : list N) : hop :=
   | 3 => HAddPerm (optn (g 1%nat) (g 2%nat)) d
   | 4 => HFind (optn (g 1%nat) (g 2%nat)) d e (optn (g 3%nat) (g 4%nat)) (Z.of_N (g 5%nat)) (Z.of_N (g 6%nat))
   | 5 => HAdvance (Z.of_N (g 1%nat))
+  | 7 => HHold (optn (g 1%nat) (g 2%nat)) d (zt (g 3%nat) (g 4%nat))
+  | 8 => HOffer (optn (g 1%nat) (g 2%nat)) d e (optn (g 3%nat) (g 4%nat)) (Z.of_N (g 5%nat)) (Z.of_N (g 6%nat)) (zt (g 7%nat) (g 8%nat))
   | _ => HInRange (optn (g 1%nat) (g 2%nat))
   end.
 Fixpoint dec_hops (l : list (list N)) : list hop :=
